@@ -35,6 +35,8 @@ def gen_cases(tier: str, seed: int) -> list[dict]:
     for _ in range(n):
         hist = H.gen_history(rng, max_sessions=5 if tier == "quick" else 7)
         cases.append({"hist": hist})
+    # the repository's own test-suite under the contracts (every tier: ~40 s on 12 processes)
+    cases.append({"kind": "suite-under-contracts", "timeout": 1500})
     return cases
 
 
@@ -43,7 +45,39 @@ def worker_init() -> None:
     contracts.attach({"merge_shard_infos", "ShardsList.write_config", "Shard.write", "hash_checksums"})
 
 
+def run_suite_under_contracts(case: dict) -> dict:
+    """google/sedpack's own tests with all contracts attached (hooks stay off: nothing in /repo changes)."""
+    import json
+    import os
+    import subprocess
+    work = common.new_workdir("c04suite")
+    try:
+        env = dict(os.environ, PYTHONPATH=f"{common.VERIF}:{common.DEPS}", RTMON_CONTRACTS_OUT=str(work / "out"),
+                   TF_CPP_MIN_LOG_LEVEL="3")
+        proc = subprocess.run([common.PY, "-m", "pytest", "-q", "-p", "no:cacheprovider", "-p", "rtmon.pytest_contracts",
+                               "-n", "6", "--timeout=900", "tests"], cwd=str(common.REPO), env=env,
+                              capture_output=True, text=True, timeout=1400, check=False)
+        evals: Counter = Counter()
+        failures = []
+        for path in (work / "out").glob("contracts-*.json") if (work / "out").is_dir() else []:
+            doc = json.loads(path.read_text())
+            evals.update(doc["evals"])
+            failures += doc["failures"]
+        violations = [{"key": f"contract-in-repository-suite/{f['contract']}", "msg": f["msg"]} for f in failures[:20]]
+        tail = proc.stdout.strip().splitlines()[-1] if proc.stdout.strip() else ""
+        inconclusive = [] if evals else [f"no contract was evaluated by the repository suite: {tail} {proc.stderr[-300:]}"]
+        return {"sig": ["suite-under-contracts"], "nontrivial": True, "violations": violations,
+                "inconclusive": inconclusive,
+                "obs": {"suite_contract_evals": dict(evals), "suite_contract_evals_total": sum(evals.values()),
+                        "contract_evals": sum(evals.values())},
+                "sample": {"suite": tail, "contract_evaluations": dict(evals)}}
+    finally:
+        common.rm(work)
+
+
 def run_case(case: dict) -> dict:
+    if case.get("kind") == "suite-under-contracts":
+        return run_suite_under_contracts(case)
     from rtmon.monitors import contracts
     contracts.reset()
     hist = case["hist"]
